@@ -102,3 +102,19 @@ def bounded(params):
     return {"evaluations": evals, "distinct_nontrivial": nontriv, "failures": failures, "exhaustive": tier != "quick",
             "rule": "all (quick: 120 seeded) 3-label arrays of shape (5,), (2,3), (2,2,2) x backend {default, cc3d, scipy}: result compared with a flood-fill specification (full connectivity per label for cc3d, face connectivity for scipy); non-trivial = more than one label present",
             "bound": "<= 8 voxels, labels {0,1,2}"}
+
+
+def history(params):
+    """one default approximator reused on inputs of different dimensionality must behave like a fresh one"""
+    from panoptica import ConnectedComponentsInstanceApproximator, SemanticPair
+    bad = []
+    a2 = np.array([[1, 0, 0], [0, 1, 0], [0, 0, 2]], np.uint8)
+    a3 = np.zeros((3, 3, 3), np.uint8); a3[0, 0, 0] = 1; a3[1, 1, 1] = 1; a3[2, 2, 1] = 2
+    for order in ((a2, a3), (a3, a2)):
+        ap = ConnectedComponentsInstanceApproximator()
+        for arr in order:
+            got = ap.approximate_instances(SemanticPair(arr.copy(), arr.copy()))
+            want = ConnectedComponentsInstanceApproximator().approximate_instances(SemanticPair(arr.copy(), arr.copy()))
+            if got.n_prediction_instance != want.n_prediction_instance or not np.array_equal(got.prediction_arr, want.prediction_arr):
+                bad.append(f"reused approximator on a {arr.ndim}-D input: {got.n_prediction_instance} instances, a fresh one finds {want.n_prediction_instance}")
+    return {"violated": bool(bad), "problems": bad}
